@@ -170,11 +170,27 @@ func discharge(o *Oblig, lits []*Term, workDir string, idx int, tsec int, allAgr
 		v.Seconds = secs
 		v.Backend = backends[0].name
 		v.Output = truncate(out, 2000)
-		if first == "unsat" {
+		if first == "unsat" && o.PreN > 0 {
+			// unsat after the call: vacuous only if the path was feasible before the callee's postconditions were assumed
+			pre := *o
+			pre.Hyps = o.Hyps[:o.PreN]
+			pre.PreN = 0
+			f2 := file + ".pre.smt2"
+			os.WriteFile(f2, []byte(smtText(&pre, lits, false)), 0o644)
+			first2, _, secs2 := runSolver(backends[0], f2, 5)
+			v.Seconds += secs2
+			rmQuery(f2)
+			if first2 == "unsat" {
+				v.Status = "covered" // infeasible path, nothing to say
+				rmQuery(file)
+				return v
+			}
+			v.Status = "vacuous"
+		} else if first == "unsat" {
 			v.Status = "vacuous"
 		} else {
 			v.Status = "covered"
-			os.Remove(file)
+			rmQuery(file)
 		}
 		return v
 	}
@@ -185,7 +201,7 @@ func discharge(o *Oblig, lits []*Term, workDir string, idx int, tsec int, allAgr
 		v.Seconds += secs
 		if first == "unsat" {
 			v.Status, v.Backend = "discharged", backends[0].name
-			os.Remove(file)
+			rmQuery(file)
 			return v
 		}
 		if first == "sat" {
@@ -205,11 +221,11 @@ func discharge(o *Oblig, lits []*Term, workDir string, idx int, tsec int, allAgr
 			first, _, secs := runSolver(backends[0], f2, 6)
 			v.Seconds += secs
 			v.Tried = append(v.Tried, "z3-new(ground):"+first)
-			os.Remove(f2)
+			rmQuery(f2)
 			if first == "unsat" {
 				v.Status = "discharged"
 				v.Backend = "z3-new (ground instances)"
-				os.Remove(file)
+				rmQuery(file)
 				return v
 			}
 		}
@@ -226,7 +242,7 @@ func discharge(o *Oblig, lits []*Term, workDir string, idx int, tsec int, allAgr
 			}
 			if !allAgree {
 				v.Status = "discharged"
-				os.Remove(file)
+				rmQuery(file)
 				return v
 			}
 		case "sat":
@@ -268,7 +284,7 @@ func discharge(o *Oblig, lits []*Term, workDir string, idx int, tsec int, allAgr
 					f2 := fmt.Sprintf("%s.drop%d.smt2", file, drop)
 					os.WriteFile(f2, []byte(smtText(&o2, lits, false)), 0o644)
 					first, _, secs := runSolver(backends[0], f2, 6)
-					os.Remove(f2)
+					rmQuery(f2)
 					ch <- res{first == "unsat", secs}
 				}(drop)
 			}
@@ -283,7 +299,7 @@ func discharge(o *Oblig, lits []*Term, workDir string, idx int, tsec int, allAgr
 			if proved {
 				v.Status = "discharged"
 				v.Backend = "z3-new (subset of hypotheses)"
-				os.Remove(file)
+				rmQuery(file)
 				return v
 			}
 		}
@@ -313,20 +329,20 @@ func discharge(o *Oblig, lits []*Term, workDir string, idx int, tsec int, allAgr
 				v.Model = out
 				v.Output += "\ncandidate model (quantified hypotheses ignored):\n" + truncate(out, 20000)
 			}
-			os.Remove(f2)
+			rmQuery(f2)
 		}
 	}
 	if allAgree && nUnsat == 3 {
 		v.Status = "discharged"
 		v.Backend = "z3-new+cvc5+z3"
-		os.Remove(file)
+		rmQuery(file)
 		return v
 	}
 	if allAgree && nUnsat > 0 {
 		// at least one back end proved it and none refuted it: discharged, disagreement recorded
 		v.Status = "discharged"
 		v.Backend += " (others: " + strings.Join(v.Tried, ",") + ")"
-		os.Remove(file)
+		rmQuery(file)
 		return v
 	}
 	v.Status = "failed"
@@ -378,4 +394,11 @@ func dischargeAll(jobs []job, workDir string, tsec int, allAgree bool, workers i
 	close(ch)
 	wg.Wait()
 	return out
+}
+
+// rmQuery removes a decided query file unless GVC_KEEP is set (debugging).
+func rmQuery(f string) {
+	if os.Getenv("GVC_KEEP") == "" {
+		os.Remove(f)
+	}
 }
